@@ -112,7 +112,7 @@ def run_shard(ctx: Ctx) -> None:
             del fcp
             gc.collect()
 
-    hyp_run(ctx, CC.codec_history(ctx.tier, n_values), body, ctx.n(4000, 24000))
+    hyp_run(ctx, CC.codec_history(ctx.tier, n_values), body, ctx.n(3000, 24000))
 
     def body_alt(c: Any) -> None:
         steps, cycles = c
